@@ -71,16 +71,15 @@ var (
 	sid, cid *hopkit.Ident
 )
 
-var addrOf = map[string]*net.UDPAddr{"ca": simwire.Addr("10.0.1.1", 1001), "sa": simwire.Addr("10.0.0.1", 77),
-	"cb": simwire.Addr("10.0.1.2", 2002), "x": simwire.Addr("10.0.9.9", 999)}
-
-func nameOf(a string) string {
-	for k, v := range addrOf {
-		if v.String() == a {
-			return k
-		}
-	}
-	return a
+// Address families: the abstract addresses are opaque and distinct; each behaviour is run with one concrete
+// family (the endpoints' own addresses ca/sa are fixed by NewPair, the roamed and third-party ones vary):
+// distinct IPv4 host and port / same IPv4 host, other port / other IPv4 host, same port / IPv6, same port.
+var families = []map[string]*net.UDPAddr{
+	{"cb": simwire.Addr("10.0.1.2", 2002), "x": simwire.Addr("10.0.9.9", 999)},
+	{"cb": simwire.Addr("10.0.1.1", 2002), "x": simwire.Addr("10.0.0.1", 999)},
+	{"cb": simwire.Addr("10.0.1.2", 1001), "x": simwire.Addr("10.0.9.9", 1001)},
+	{"cb": {IP: net.ParseIP("fd00::2"), Port: 1001}, "x": {IP: net.ParseIP("fd00::9"), Port: 1001}},
+	{"cb": {IP: net.ParseIP("fd00::2"), Port: 1001}, "x": {IP: net.ParseIP("fd00::2"), Port: 1002}},
 }
 
 func payload(j int) []byte { return []byte(fmt.Sprintf("payload-%03d-MARKERPLAINTEXT-%s", j, string(bytes.Repeat([]byte{byte('a' + j%26)}, 5+j*7)))) }
@@ -116,6 +115,18 @@ func replay(idx int, b *beh, seed int64) (res result) {
 		return
 	}
 	defer p.W.Close()
+	addrOf := map[string]*net.UDPAddr{"ca": p.C.EP.Addr(), "sa": p.S.EP.Addr()}
+	for k, a := range families[(idx/2)%len(families)] {
+		addrOf[k] = a
+	}
+	nameOf := func(a string) string {
+		for k, v := range addrOf {
+			if v.String() == a {
+				return k
+			}
+		}
+		return a
+	}
 	ep := map[string]*simwire.Endpoint{"c": p.C.EP, "s": p.S.EP}
 	pk := map[int][]byte{}
 	clientClosed := false
